@@ -161,6 +161,14 @@ impl CaoLangTable {
             .filter_map(|k| self.map.get(k).map(|v| (k, v)))
     }
 
+    /// Every key and value the table holds, whether or not a lookup of the key would find it
+    /// right now (a table used as a key may have changed since it was stored): for the collector
+    pub(crate) fn stored_values(&self) -> impl Iterator<Item = &Value> + '_ {
+        self.keys
+            .iter()
+            .chain(self.map.iter().flat_map(|(k, v)| [k, v]))
+    }
+
     pub fn keys(&self) -> &[Value] {
         &self.keys
     }
